@@ -457,14 +457,21 @@ def program_st(draw, **opts):
 
 
 def even_points(body):
-    """top-level positions at which the address is even by construction"""
+    """top-level positions at which the address is even by construction: not between a byte-granular statement
+    and the '.even' that follows it (definitions and labels in between do not change that)"""
     pts = []
+    pending_odd = False
     for i in range(len(body) + 1):
-        if i < len(body) and body[i]["k"] == "even":
-            continue
-        if i > 0 and body[i - 1]["k"] == "odd":
-            continue
-        pts.append(i)
+        if not pending_odd:
+            pts.append(i)
+        if i == len(body):
+            break
+        s_ = body[i]
+        k = s_["k"]
+        if k == "even":
+            pending_odd = False
+        elif k == "odd" or k == "str" or (k == "data" and s_["d"] == "byte") or (k == "blk" and s_["d"] == "blkb") or k == "insert":
+            pending_odd = True
     return pts or [len(body)]
 
 
